@@ -5,9 +5,15 @@ package waiter
 type vhCB struct {
 	calls int
 	order *[]*Entry
+	q     *Queue
 }
 
 func (c *vhCB) Callback(e *Entry) {
+	// the linearisation argument for racing unregistrations needs callbacks to run inside
+	// Notify's read-locked section: a writer (EventUnregister) must not be able to get in
+	if c.q != nil {
+		vassert(!c.q.mu.TryLock(), "callbacks run while the queue's read lock is held, so an unregistration cannot complete in between")
+	}
 	c.calls++
 	*c.order = append(*c.order, e)
 }
@@ -21,7 +27,7 @@ func vhQueue(n int) (*Queue, []*Entry, []*vhCB, []bool, *[]*Entry) {
 	cbs := make([]*vhCB, n)
 	in := make([]bool, n)
 	for i := range es {
-		cbs[i] = &vhCB{order: order}
+		cbs[i] = &vhCB{order: order, q: q}
 		es[i] = &Entry{Callback: cbs[i]}
 	}
 	// pick a permutation prefix: which entry is registered next, or stop
